@@ -19,4 +19,10 @@ theorem pinLineNumberAndBounds : Generated.pinLineNumberAndBounds = ("let index 
 /-- `pub fn show_region(&self, start: usize, end: usize)`, src/io.rs -/
 theorem pinShowRegion : Generated.pinShowRegion = ("let end = min(end, self.data.len()); let start = min(start, end); let filename = self.filename(start); let (begin_line_no, begin_loc, _) = self.line_number_and_bounds(start); let (end_line_no, begin_last_line, end_loc) = self.line_number_and_bounds(end); let end_loc = min(end_loc, self.data.len()); debug!(\"range is {}-{}\", begin_loc, end_loc); let begin_line_offset = start - begin_loc; let end_line_offset = end - begin_last_line; let segment = &self.data[begin_loc..end_loc]; let mut result = String::new(); result.push_str(&format!(\" -> {}:{}\\n\", filename, begin_line_no)); result.push_str( \" |\\n\"); let mut number = begin_line_no; debug!(\"segment : {:?}\", segment); for line in segment.lines() { let this_start = if number == begin_line_no { begin_line_offset } else { 0 }; let this_end = if number == end_line_no { end_line_offset } else { line.len() }; result.push_str(&format!(\"{:>4} | {}\\n\", number, line)); result.push_str(&format!(\" | {}{}\\n\", \" \".repeat(this_start), \"^\".repeat(this_end.saturating_sub(this_start)))); number += 1; } result" : String) := by rfl
 
+/-- `pub fn new_from_data(`, src/io.rs -/
+theorem pinNewFromData : Generated.pinNewFromData = ("let mut newlines = Vec::new(); let mut contents = String::from(preamble); mark_newlines(0, &mut newlines, &contents); contents.push_str(user_data); mark_newlines(preamble.len(), &mut newlines, contents.split_at(preamble.len()).1); let filenames = vec!( (0, String::from(\"<builtin>\")), (preamble.len(), String::from(filename)) ); FileContents { data: contents, filenames: filenames, newlines: newlines, }" : String) := by rfl
+
+/-- `pub fn new_from_file_with_preamble(`, src/io.rs -/
+theorem pinNewFromFile : Generated.pinNewFromFile = ("let file = File::open(path)?; let mut file_reader = BufReader::new(file); let filename = path.file_name().map(|x| x.to_string_lossy().into_owned()).unwrap_or(String::from(\"<unknown>\")); let mut file_bytes = Vec::new(); file_reader.read_to_end(&mut file_bytes)?; match str::from_utf8(&file_bytes) { Ok(_) => {}, Err(_) => { warn!(\"input file {} is not valid UTF-8\", filename); }, }; Ok(FileContents::new_from_data(preamble, &String::from_utf8_lossy(&file_bytes), &filename))" : String) := by rfl
+
 end Tie.PinsIo
